@@ -24,7 +24,8 @@ Definition g_float :=
        Opt (seq [Cls [one "E"; one "e"]; Opt sign; Plus digit])].
 Definition g_string := Plus printable_sp.
 Definition g_char := printable.
-Definition g_hex := Plus (Cls [rng "0" "9"; rng "A" "F"]).
+Definition g_hexc := Cls [rng "0" "9"; rng "A" "F"].
+Definition g_hex := Plus (Cat g_hexc g_hexc).          (* pairs of hexadecimal digits *)
 Definition g_numeric_array :=
   Alt (Alt (seq [Cls [one "f"]; Plus (seq [Cls [one ","]; g_float])])
            (seq [Cls [one "C"; one "I"; one "S"]; Plus (seq [Cls [one ","]; Opt (Cls [one "+"]); Plus digit])]))
